@@ -366,6 +366,19 @@ Definition kf_C01_life (c : cfg) (denoms : list Z) (l : lstate) : bool :=
   existsb (kf_C01_4_denom l) denoms ||
   existsb (fun e => kf_C01_2 l (ep_app e) (ep_id e) || kf_C01_4_prod l (ep_app e) (ep_id e)) (epairs c).
 
+(* the same identities corrected by the ghosts: they hold in EVERY history (Properties/C01.v
+   c01_adjusted_predicate_holds); where they hold and the plain identity fails, the failure is inside the
+   known-finding class whose ghost is not zero *)
+Definition c01l_custody_adj (c : cfg) (l : lstate) (d : Z) : bool :=
+  bal (vs l) VAULT d =? coll_sum c (vs l) d + unsol (vs l) d - er_short l d.
+Definition c01l_coll_adj (l : lstate) (a p : Z) : bool :=
+  (match prods (vs l) a p with Some pr => p_coll pr | None => 0 end) =? prod_coll_sum (vs l) a p + lock_coll l a p - er_coll l a p.
+Definition c01l_mint_adj (l : lstate) (a p : Z) : bool :=
+  (match prods (vs l) a p with Some pr => p_mint pr | None => 0 end) =? prod_mint_sum (vs l) a p + lock_prin l a p - drift l a p - er_mint l a p.
+Definition holds_C01_adj (c : cfg) (denoms : list Z) (l : lstate) : bool :=
+  forallb (c01l_custody_adj c l) denoms && c01l_count l &&
+  forallb (fun e => c01l_coll_adj l (ep_app e) (ep_id e) && c01l_mint_adj l (ep_app e) (ep_id e) && c01l_ids l (ep_app e) (ep_id e)) (epairs c).
+
 (* ---------- C02 over the full life ---------- *)
 (* recorded principal: open vaults + stable-mint vaults + vaults awaiting auction + debt registered for
    emergency redemption *)
